@@ -22,7 +22,7 @@ use std::task::{Context, Poll, Waker};
 pub const PROP: PropDef = PropDef {
     id: "C13",
     parts,
-    rule: "(generator) every program (word over {yield, yield-all of 0/1/2 items, self-wake, wait for an external operation, drop the yield handle, return}) up to the stated length x adaptor {raw generator, yielded-only, complete-only, try-stream with Ok/Err result} x polling schedule: poll-when-woken by default, with bounded deviations {spurious poll, completing external operations in another order or before the first poll, dropping the stream early} and extra polls after the end; (state machine) update + install with progress sequences of length 0-3, installer finishing before/after acknowledgements, all environment operations blocking, consumer polls delayed, bounded scheduling deviations; non-trivial = program contains a yield (generator) / at least one progress value or delayed poll (state machine)",
+    rule: "(generator) every program (word over {yield, yield-all of 0/1/2 items, self-wake, wait for an external operation, drop the yield handle, return}) up to the stated length x adaptor {raw generator, yielded-only, complete-only, try-stream with Ok/Err result} x polling schedule: poll-when-woken by default, with bounded deviations {spurious poll, completing external operations in another order or before the first poll, dropping the stream early} and extra polls after the end; (state machine) the emission points under control requests arriving at every step with both select! orders; update + install with progress sequences of length 0-3, installer finishing before/after acknowledgements, all environment operations blocking, consumer polls delayed, bounded scheduling deviations; non-trivial = program contains a yield (generator) / at least one progress value or delayed poll (state machine)",
     assumptions: &["the consumer is `while let Some(x) = stream.next().await` (an item makes the consumer immediately runnable again)"],
 };
 
@@ -80,6 +80,62 @@ async fn interp(prog: Vec<Op>, co: Yield<u32>, w: W) -> u32 {
     }
     w.lock().unwrap().log.push(Obs::Note("task returns".into()));
     1000 + next
+}
+
+/// A combinator that polls its inner future again (up to `extra` times) within the same poll when
+/// it returned Pending - what a `select!`/`join!` loop around the producer legitimately does.
+struct Repoll<F> {
+    inner: Pin<Box<F>>,
+    extra: usize,
+}
+impl<F: Future> Future for Repoll<F> {
+    type Output = F::Output;
+    fn poll(mut self: Pin<&mut Self>, cx: &mut Context<'_>) -> Poll<F::Output> {
+        let extra = self.extra;
+        for _ in 0..=extra {
+            if let Poll::Ready(v) = self.inner.as_mut().poll(cx) {
+                return Poll::Ready(v);
+            }
+        }
+        Poll::Pending
+    }
+}
+fn repoll<F: Future>(f: F, extra: usize) -> Repoll<F> {
+    Repoll { inner: Box::pin(f), extra }
+}
+
+/// State-machine level back-pressure: within every check the code after an emission runs only
+/// after the consumer has taken that event - the first request follows the delivery of
+/// CheckingForUpdates, the installer call follows InstallingUpdate, the reboot follows
+/// WaitingForReboot (log order = real order: the consumer logs an event when it receives it).
+pub fn emission_order(log: &[Obs]) -> Result<(), (String, String)> {
+    let mut in_check = false;
+    let (mut checking, mut installing, mut waiting) = (false, false, false);
+    for (i, o) in log.iter().enumerate() {
+        match o {
+            Obs::CheckAllowed { ans, .. } if ans.positive().is_some() => {
+                in_check = true;
+                checking = false;
+                installing = false;
+                waiting = false;
+            }
+            Obs::Ev(Ev::State(State::CheckingForUpdates(_))) => checking = true,
+            Obs::Ev(Ev::State(State::InstallingUpdate)) => installing = true,
+            Obs::Ev(Ev::State(State::WaitingForReboot)) => waiting = true,
+            Obs::Ev(Ev::State(State::Idle)) => in_check = false,
+            Obs::Req(r) if in_check && !checking => {
+                return Err(("request issued before the consumer took CheckingForUpdates".into(), format!("req#{} at log #{i}", r.idx)));
+            }
+            Obs::InstallCall { .. } if in_check && !installing => {
+                return Err(("installer started before the consumer took InstallingUpdate".into(), format!("log #{i}")));
+            }
+            Obs::Reboot(_) if in_check && !waiting => {
+                return Err(("reboot performed before the consumer took WaitingForReboot".into(), format!("log #{i}")));
+            }
+            _ => {}
+        }
+    }
+    Ok(())
 }
 
 /// Reference semantics: items emitted (in order) and the return value.
@@ -143,29 +199,31 @@ fn run_gen(ctx: &RunCtx, max_len: usize) -> RunOut {
         prog.push(OPS[c - 1]);
     }
     let adaptor = choose("adaptor", 5);
+    // the producer future polled once per poll (0) or re-polled once / twice when it returned Pending
+    let extra_polls = choose("producer_repolls", 3);
     let w = new_world(Box::new(NullDirector), Blocking::none(), Store::default());
     let (exp_items, exp_ret) = reference(&prog);
     let w2 = w.clone();
     let p2 = prog.clone();
     let mut consumer = match adaptor {
         0 => {
-            let g = generate(move |co| interp(p2, co, w2));
+            let g = generate(move |co| repoll(interp(p2, co, w2), extra_polls));
             Consumer::Raw(Box::pin(g))
         }
         1 => {
-            let g = generate(move |co| interp(p2, co, w2).map(|_| ()));
+            let g = generate(move |co| repoll(interp(p2, co, w2).map(|_| ()), extra_polls));
             let s = g.into_yielded();
             let s = Box::pin(s);
             let s = s.map(Got::Item);
             Consumer::Stream(Box::pin(s), Box::new(|| None))
         }
         2 => {
-            let g = generate(move |co| interp(p2, co, w2));
+            let g = generate(move |co| repoll(interp(p2, co, w2), extra_polls));
             Consumer::Fut(Box::pin(g.into_complete()))
         }
         3 | _ => {
             let as_err = adaptor == 4;
-            let g = generate(move |co| interp(p2, co, w2).map(move |r| if as_err { Err(r) } else { Ok(()) }));
+            let g = generate(move |co| repoll(interp(p2, co, w2).map(move |r| if as_err { Err(r) } else { Ok(()) }), extra_polls));
             let s = g.into_try_stream().map(|r| match r {
                 Ok(i) => Got::Item(i),
                 Err(e) => Got::Err(e),
@@ -338,9 +396,9 @@ fn run_gen(ctx: &RunCtx, max_len: usize) -> RunOut {
     }
     let log = w.lock().unwrap().log.clone();
     let has_yield = !exp_items.is_empty();
-    let mut out = RunOut::new(format!("adaptor{adaptor}-{}", if dropped { "dropped" } else { "run" }), has_yield, hash64(&(format!("{prog:?}"), adaptor, trace::digest(&log))));
+    let mut out = RunOut::new(format!("adaptor{adaptor}-{}", if dropped { "dropped" } else { "run" }), has_yield, hash64(&(format!("{prog:?}"), adaptor, extra_polls, trace::digest(&log))));
     if ctx.want_trace {
-        out.trace = Some(json!({"program": format!("{prog:?}"), "adaptor": (["raw", "into_yielded", "into_complete", "into_try_stream(Ok)", "into_try_stream(Err)"][adaptor.min(4)]), "received": format!("{got:?}"), "log": trace::trace_json(&log)}));
+        out.trace = Some(json!({"program": format!("{prog:?}"), "producer_repolls": extra_polls, "adaptor": (["raw", "into_yielded", "into_complete", "into_try_stream(Ok)", "into_try_stream(Err)"][adaptor.min(4)]), "received": format!("{got:?}"), "log": trace::trace_json(&log)}));
     }
     if let Some((k, m)) = fail {
         return out.fail(k, m);
@@ -530,8 +588,8 @@ fn parts(tier: Tier) -> Vec<PartDef> {
     let gen = |name: &str, len: usize, d: usize| {
         PartDef::new(
             name,
-            Cfg::new(&format!("C13/{name}")).dev(d).free(&["op", "adaptor"]),
-            json!({"program_ops": OPS.iter().map(|o| format!("{o:?}")).collect::<Vec<_>>(), "max_program_length": len, "adaptors": 5, "polling": format!("poll-when-woken plus at most {d} deviations (spurious poll, other completion order, early drop); two extra polls after the end")}),
+            Cfg::new(&format!("C13/{name}")).dev(d).free(&["op", "adaptor", "producer_repolls"]),
+            json!({"producer_future": "polled once per poll, or re-polled once / twice within the same poll when pending (as a select!/join! loop does)", "program_ops": OPS.iter().map(|o| format!("{o:?}")).collect::<Vec<_>>(), "max_program_length": len, "adaptors": 5, "polling": format!("poll-when-woken plus at most {d} deviations (spurious poll, other completion order, early drop); two extra polls after the end")}),
             move |ctx| run_gen(ctx, len),
         )
     };
@@ -546,6 +604,17 @@ fn parts(tier: Tier) -> Vec<PartDef> {
         json!({"progress_sequences": "0..3 values", "install": ["ok", "failed"], "installer_waits_for_last_acknowledgement": [true, false], "modes": ["oneshot", "start"], "blocking": "timers, http, plan, install, each progress, reboot",
                "scheduling": format!("at most {d} non-default choices (other completion order, delayed or spurious consumer poll)")}),
         move |ctx| run_sm(ctx, tier),
+    ));
+    // emission points of the real state machine while control requests arrive: the check's future
+    // is then re-polled by the select! loop within one poll of the stream
+    let free: Vec<&'static str> = vec!["options", "inject", "policy.check", "server.update", "reboot_refusals"];
+    let dd = tier.pick(0, 1);
+    v.push(PartDef::new(
+        "emissions-under-control-requests",
+        Cfg::new("C13/emissions-under-control-requests").dev(dd).free(&free),
+        json!({"driver": "the C11 one-request harness (every blocking point, request injected at every step, select! order a choice point)", "deviation_bound": dd,
+               "oracle": "first request after the delivery of CheckingForUpdates, installer call after InstallingUpdate, reboot after WaitingForReboot; no lost wake-up"}),
+        move |ctx| crate::props::c11::run_emissions(ctx, tier),
     ));
     v
 }
